@@ -105,7 +105,28 @@ func evalArg(root map[string]any, at, arg any) (val any) {
 			}
 		}
 	default:
-		val = arg
+		val = literal(arg)
 	}
 	return val
+}
+
+// literal returns a copy of an array or map literal of a plan so that the
+// data assembled by one evaluation is never shared with the plan, with
+// another evaluation or with another iteration of each.
+func literal(v any) any {
+	switch tv := v.(type) {
+	case []any:
+		dup := make([]any, len(tv))
+		for i, m := range tv {
+			dup[i] = literal(m)
+		}
+		return dup
+	case map[string]any:
+		dup := make(map[string]any, len(tv))
+		for k, m := range tv {
+			dup[k] = literal(m)
+		}
+		return dup
+	}
+	return v
 }
